@@ -19,8 +19,11 @@ Definition pair_equiv (a b : ebound * ebound) : Prop := eb_equiv (fst a) (fst b)
 Lemma inb_equiv a b v : pair_equiv a b -> (inb a v <-> inb b v).
 Proof.
   destruct a as [a1 a2], b as [b1 b2]. unfold pair_equiv, inb; cbn [fst snd]. intros [H1 H2].
-  destruct a1, b1; cbn in H1; try contradiction; destruct a2, b2; cbn in H2; try contradiction; cbn; split; intros [? ?]; split;
-    try tauto; lra.
+  assert (L : le_lo a1 v <-> le_lo b1 v).
+  { destruct a1, b1; cbn in H1; try contradiction; cbn; try tauto. split; intros; lra. }
+  assert (U : le_hi v a2 <-> le_hi v b2).
+  { destruct a2, b2; cbn in H2; try contradiction; cbn; try tauto. split; intros; lra. }
+  tauto.
 Qed.
 
 Lemma this_q0 : this q0 = 0.
@@ -30,9 +33,9 @@ Lemma this_opp q : this (- q)%Qc == - this q.
 Proof. unfold Qcopp, Q2Qc. cbn [this]. apply Qred_correct. Qed.
 
 Lemma eb_pos_epos b : eb_pos b = epos (to_e b).
-Proof. destruct b; cbn; try reflexivity. unfold qlt, qle. rewrite this_q0. reflexivity. Qed.
+Proof. destruct b; cbn; reflexivity. Qed.
 Lemma eb_neg_eneg b : eb_neg b = eneg (to_e b).
-Proof. destruct b; cbn; try reflexivity. unfold qlt, qle. rewrite this_q0. reflexivity. Qed.
+Proof. destruct b; cbn; reflexivity. Qed.
 
 Definition to_e2 (p : eb * eb) : ebound * ebound := (to_e (fst p), to_e (snd p)).
 
